@@ -197,6 +197,34 @@ func recordTime(args []string) int {
 		}
 		evs = append(evs, ev)
 	}
+	// every half hour around each offset change of the target zones (the skipped and the repeated hour)
+	for _, z := range []string{"America/New_York", "Australia/Lord_Howe", "Europe/London"} {
+		loc, err := time.LoadLocation(z)
+		if err != nil {
+			return fail(err)
+		}
+		for y := 2023; y <= 2024; y++ {
+			prev := time.Date(y, 1, 1, 12, 0, 0, 0, loc)
+			_, poff := prev.Zone()
+			for d := 2; d <= 366; d++ {
+				cur := time.Date(y, 1, d, 12, 0, 0, 0, loc)
+				_, off := cur.Zone()
+				if off != poff {
+					start := time.Date(y, 1, d-1, 12, 0, 0, 0, time.UTC)
+					for k := 0; k < 96; k++ {
+						t := start.Add(time.Duration(k)*30*time.Minute + time.Duration(rng.Intn(1800000))*time.Millisecond).In(time.Local)
+						v, err := evalWith("useTimezone(t, z)", map[string]interface{}{"t": t, "z": z})
+						if err != nil {
+							return fail(err)
+						}
+						rt, _ := v.(time.Time)
+						evs = append(evs, mk("usetz", map[string]any{"t": proj.TimeValue(t), "res": proj.TimeValue(rt), "args": z}))
+					}
+				}
+				poff = off
+			}
+		}
+	}
 	for _, z := range []string{"Mars/Olympus", "No/Such", "UTC+25x"} {
 		_, err := evalWith("useTimezone(t, z)", map[string]interface{}{"t": times[0], "z": z})
 		evs = append(evs, mk("badtz", map[string]any{"err": err != nil, "args": z}))
